@@ -158,7 +158,7 @@ def ctx_view_for(spec: Spec, i: int, context: Optional[dict]):
         context = {}
     if context.get('_noview'):
         return ()
-    if spec.types[i] in ('TF', 'TH'):
+    if spec.types[i] in ('TF', 'TH', 'TFN'):
         keep = f'k{spec.labels[i] % 2}'
         context = {k: v for k, v in context.items() if k == keep or k.startswith('_')}
     elif spec.types[i] == 'TG':
